@@ -9,6 +9,7 @@ EXPLANATION = (
     "in-memory fast-path table (_FUNCTION_HASHES) is kept coherent with the stored source (every writer of func_code.py "
     "evicts the entries of other live functions sharing the id); the fast-path key includes the code object; the source is "
     "re-read from disk at call time. Equality of source text is joblib's oracle for 'same code' and is not questioned."
+    ' A fast-path entry is specific to the store it was validated against; call() checks the stored source before persisting a result next to it.'
 )
 ASSUMPTIONS = [
     "source text equality is the oracle for 'same code' (closures over differing values are outside the property's domain)",
